@@ -744,14 +744,14 @@ package chain
 //@   ensures [assumed:fields] db.db == old(db.db) && db.n == old(db.n)
 //@   ensures [assumed:point-update] sheight == height
 //@   ensures [no-commit] !mayHaveCalled("Flush")
-//@ func (*DBStore).applyState props C03,C01,C02
+//@ func (*DBStore).applyState props C03,C01,C02,C04
 //@   assigns heap:DBStore, ghost:best, ghost:sheight
 //@   frame assumed
 //@   requires db != nil
 //@   ensures db.db == old(db.db) && db.n == old(db.n)
 //@   ensures [index] best == old(best)[next.Index.Height := next.Index.ID] && sheight == next.Index.Height
 //@   ensures [no-commit] !mayHaveCalled("Flush")
-//@ func (*DBStore).revertState props C03,C01,C02
+//@ func (*DBStore).revertState props C03,C01,C02,C04
 //@   assigns heap:DBStore, ghost:best, ghost:sheight
 //@   frame assumed
 //@   requires db != nil && prev.Index.Height < 18446744073709551615
@@ -970,7 +970,7 @@ package chain
 // is not spent is stored as the diff carries it (a revised contract with its revision), an element
 // created and spent in the same block is not touched, and nothing else in the bucket changes.
 // (Precondition: a block has one diff per element.)
-//@ func (*DBStore).applyElements props C02
+//@ func (*DBStore).applyElements props C02,C01
 //@   assigns heap:DBStore, ghost:gSC, ghost:gSF, ghost:gFC, ghost:gExp
 //@   requires db != nil
 //@   requires [schedule-ready] forall d int :: { cau.FileContractElementDiffs()[d] } 0 <= d && d < len(cau.FileContractElementDiffs()) ==> expReadyApply(gExp, cau.FileContractElementDiffs()[d])
@@ -1006,7 +1006,7 @@ package chain
 // revertElements: the mirror image -- a spent element comes back as the diff carries it, a revised
 // contract gets its prior revision back, an element that was created leaves the bucket, an
 // element created and spent in the block is not touched.
-//@ func (*DBStore).revertElements props C02
+//@ func (*DBStore).revertElements props C02,C01
 //@   assigns heap:DBStore, ghost:gSC, ghost:gSF, ghost:gFC, ghost:gExp
 //@   requires db != nil
 //@   requires [schedule-ready] forall d int :: { cru.FileContractElementDiffs()[d] } 0 <= d && d < len(cru.FileContractElementDiffs()) ==> expReadyRevert(gExp, cru.FileContractElementDiffs()[d])
